@@ -50,6 +50,15 @@ def ofRs {α} : Rs α → Out α
 
 end Out
 
+/-- sequencing of panicking expressions (explicit, so that `simp` unfolds it predictably) -/
+def rsBind {α β} (x : Rs α) (f : α → Rs β) : Rs β :=
+  match x with
+  | .ok v => f v
+  | .error w => .error w
+
+@[simp] theorem rsBind_ok {α β} (v : α) (f : α → Rs β) : rsBind (.ok v) f = f v := rfl
+@[simp] theorem rsBind_error {α β} (w : String) (f : α → Rs β) : rsBind (.error w : Rs α) f = .error w := rfl
+
 namespace Bytes
 
 /-- the last `n` bytes of the big-endian representation of `v` (`v.to_be_bytes()[len-n..]`) -/
